@@ -24,6 +24,7 @@ RULE += ("; added after the mutation rounds: histories of 25-45 updates; the cal
 RULE += ("; round 5: the object's own (or another object's) live palette dictionary handed back, with or without an edited entry")
 RULE += ("; round 8: palette updates on shuffled copies (nothing / everything / all but one position frozen) and their parents")
 RULE += ("; round 9: colour names with trailing NULs / blanks / other case; multi-letter keys containing the missing residue; a dictionary equal to the stock palette")
+RULE += ("; round 10: lower-case twins of residue keys; the dictionary just accepted, edited (validly or not) and handed to another object")
 EXHAUSTIVE = {"quick": False, "thorough": False}
 ASSUMPTIONS = [
     "warning filters that escalate warnings to errors, and palette values that are str subclasses with their own __str__ (e.g. str-mixin Enum members), are not driven",
